@@ -27,7 +27,8 @@ class Zygote:
         self.idx = idx
         self.stderr = open(stderr_path, "ab")
         self.proc = subprocess.Popen([PY, "-W", "ignore", os.path.join(HERE, "zygote.py")], stdin=subprocess.PIPE,
-                                     stdout=subprocess.PIPE, stderr=self.stderr, env=zygote_env(hashseed), cwd="/")
+                                     stdout=subprocess.PIPE, stderr=self.stderr, env=zygote_env(hashseed), cwd=os.path.dirname(stderr_path))
+        # cwd = the pool's scratch directory (removed with it): a changed cij that remembers the import-time directory writes there, not into /
         self.ready = False
         self.dead = False
 
